@@ -965,7 +965,9 @@ class ServerOptions(Options):
                 )
 
         for process_num in range(numprocs_start, numprocs + numprocs_start):
-            expansions = common_expansions
+            # a fresh dictionary for every process: ENV_ keys taken from one
+            # process' environment must not be visible to the next process
+            expansions = dict(common_expansions)
             expansions.update({'process_num': process_num, 'numprocs': numprocs})
             expansions.update(self.environ_expansions)
 
@@ -976,28 +978,28 @@ class ServerOptions(Options):
             for k, v in environment.items():
                 expansions['ENV_%s' % k] = v
 
-            directory = get(section, 'directory', None)
+            directory = get(section, 'directory', None, expansions=expansions)
 
             logfiles = {}
 
             for k in ('stdout', 'stderr'):
                 lf_key = '%s_logfile' % k
-                lf_val = get(section, lf_key, Automatic)
+                lf_val = get(section, lf_key, Automatic, expansions=expansions)
                 if isinstance(lf_val, basestring):
                     lf_val = expand(lf_val, expansions, lf_key)
                 lf_val = logfile_name(lf_val)
                 logfiles[lf_key] = lf_val
 
                 bu_key = '%s_logfile_backups' % k
-                backups = integer(get(section, bu_key, 10))
+                backups = integer(get(section, bu_key, 10, expansions=expansions))
                 logfiles[bu_key] = backups
 
                 mb_key = '%s_logfile_maxbytes' % k
-                maxbytes = byte_size(get(section, mb_key, '50MB'))
+                maxbytes = byte_size(get(section, mb_key, '50MB', expansions=expansions))
                 logfiles[mb_key] = maxbytes
 
                 sy_key = '%s_syslog' % k
-                syslog = boolean(get(section, sy_key, False))
+                syslog = boolean(get(section, sy_key, False, expansions=expansions))
                 logfiles[sy_key] = syslog
 
                 # rewrite deprecated "syslog" magic logfile into the equivalent
